@@ -629,6 +629,23 @@ func cmp(op token.Token, a, b *Term) *Term {
 			return Bool(constant.Compare(a.C, op, b.C))
 		}
 	}
+	// a boolean compared with a boolean constant is the boolean or its negation
+	if op == token.EQL || op == token.NEQ {
+		for k := 0; k < 2; k++ {
+			x, kst := a, b
+			if k == 1 {
+				x, kst = b, a
+			}
+			if bv, isC := kst.BoolVal(); isC && x.Op != "const" {
+				if _, xIsC := x.BoolVal(); !xIsC && isBoolTerm(x) {
+					if bv == (op == token.EQL) {
+						return x
+					}
+					return Not(x)
+				}
+			}
+		}
+	}
 	// aggregates compare component-wise
 	if op == token.EQL || op == token.NEQ {
 		ea, eb := expandAgg(a), expandAgg(b)
